@@ -12,11 +12,12 @@ var verifProfIDs = [2]agd.ProfileID{"prof0000", "prof0001"}
 
 // verifMoves is the ghost backend of VerifC14Moves: the profile each device belongs to.
 type verifMoves struct {
-	prof [2]int // device -> profile index or -1 (deleted)
+	prof    [2]int  // device -> profile index or -1 (deleted)
+	deleted [2]bool // profile marked as deleted by the backend
 }
 
 func (b *verifMoves) profile(p int) *agd.Profile {
-	pr := &agd.Profile{ID: verifProfIDs[p]}
+	pr := &agd.Profile{ID: verifProfIDs[p], Deleted: b.deleted[p]}
 	for d, dp := range b.prof {
 		if dp == p {
 			pr.DeviceIDs = append(pr.DeviceIDs, verifDevIDs[d])
@@ -52,7 +53,7 @@ func (b *verifMoves) response(first, second int) (ps []*agd.Profile, ds []*agd.D
 // a lookup by device ID or by dedicated IP returns the device together with the
 // profile that currently contains it, and nothing for a deleted device.
 //
-//verif:harness name=H14b-moves tier=quick bounds="2 profiles, 2 devices each with one dedicated IP; initially both in profile 0; 4 steps from {incremental sync moving one device to profile 0/1/deleted with the changed profiles listed in either order, lookup by device ID, lookup by dedicated IP, run pending clean-up goroutines}" reach=done,found,not-found,moved maxpaths=1500000 switches=0
+//verif:harness name=H14b-moves tier=quick bounds="2 profiles, 2 devices each with one dedicated IP; initially both in profile 0; 4 steps from {incremental sync moving one device to profile 0/1/deleted with the changed profiles listed in either order, incremental sync marking a profile deleted or live again, lookup by device ID, lookup by dedicated IP, run pending clean-up goroutines}" reach=done,found,not-found,moved,profile-deleted maxpaths=3000000 switches=0
 //verif:assume backend consistency: a device belongs to at most one profile; an incremental response contains every profile whose device list changed, with its current devices; clean-up goroutines run only when the harness lets them
 func VerifC14Moves() { verifC14Moves(4) }
 
@@ -69,7 +70,13 @@ func verifC14Moves(steps int) {
 	db.setProfiles(ctx, []*agd.Profile{b.profile(0), b.profile(1)}, []*agd.Device{b.device(0), b.device(1)}, true)
 
 	for s := 0; s < steps; s++ {
-		switch verifChoice(4) {
+		switch verifChoice(5) {
+		case 4: // incremental sync: profile p is deleted (or comes back)
+			p := verifChoice(2)
+			b.deleted[p] = !b.deleted[p]
+			ps, ds := b.response(p, -1)
+			db.setProfiles(ctx, ps, ds, false)
+			verifReach("profile-deleted")
 		case 0: // incremental sync: device d goes to profile np
 			d := verifChoice(2)
 			np := verifChoice(3) - 1
@@ -101,6 +108,7 @@ func verifC14Moves(steps int) {
 			} else {
 				verifAssert("lookup-returns-the-device", err == nil && dev != nil && dev.ID == verifDevIDs[d])
 				verifAssert("lookup-returns-the-profile-that-contains-it", err != nil || (p != nil && p.ID == verifProfIDs[b.prof[d]]))
+				verifAssert("lookup-shows-the-profile's-current-deleted-mark", err != nil || p == nil || p.Deleted == b.deleted[b.prof[d]])
 				verifReach("found")
 			}
 		case 3:
